@@ -115,6 +115,9 @@ def op_qfield(st, o):
     else:
         arr = make_array({"kind": "rint", "seed": c["seed"], "lo": -8, "hi": 9, "step": 0.5, "shape": [*mm.n, nvdim]})
     kw = dict(nvdim=nvdim, value=arr.copy())
+    if o.get("dtype") == "int" and c["t"] == "linear" and np.all(arr == np.rint(arr)):
+        arr = arr.astype(np.int64)
+        kw = dict(nvdim=nvdim, value=arr.copy(), dtype=np.int64)
     if o.get("vdims"):
         kw["vdims"] = list(o["vdims"])
     if o.get("mapping"):
